@@ -5,11 +5,11 @@
 From Coq Require Import String List NArith Bool.
 From J5V.lib Require Import Outcome Strcase.
 From J5V.model Require Entity.
-From J5V.model Require Import J5sEntity J5sRefSpec J5sAst Desc J5sWalk J5sLink J5sConvert J5sContract J5sSymbols J5sTypeNames J5sValid J5sCorr.
+From J5V.model Require Import J5sValidDecl J5sComments J5sEntity J5sRefSpec J5sAst Desc J5sWalk J5sLink J5sConvert J5sContract J5sSymbols J5sTypeNames J5sValid J5sCorr.
 From J5V.gen Require ImportsGen.
 From J5V.model Require RulesDecl RulesWrite.
 From Coq Require Import ZArith.
-From J5V.proofs Require Import J5sProofs J5sContractProofs J5sLinkProofs J5sResolveProofs J5sResolveCompleteProofs J5sServiceProofs J5sTotalProofs J5sSymbolProofs J5sCompileProofs J5sSubPkgProofs J5sDepsProofs J5sNameProofs J5sTypeNameProofs J5sWitnessProofs J5sStrictProofs StrcaseProofs J5sStrcaseProofs J5sInfraProofs J5sRefSpecProofs J5sRulesCompose J5sEntityProofs.
+From J5V.proofs Require Import J5sProofs J5sContractProofs J5sLinkProofs J5sResolveProofs J5sResolveCompleteProofs J5sServiceProofs J5sTotalProofs J5sSymbolProofs J5sCompileProofs J5sSubPkgProofs J5sDepsProofs J5sNameProofs J5sTypeNameProofs J5sWitnessProofs J5sStrictProofs StrcaseProofs J5sStrcaseProofs J5sInfraProofs J5sRefSpecProofs J5sRulesCompose J5sEntityProofs J5sCommentsProofs J5sValidDeclProofs J5sInfraDepsProofs.
 Import ListNotations.
 Local Open Scope N_scope.
 
@@ -371,6 +371,19 @@ Theorem C02_resolver_sound_and_complete : forall this imports im exports,
 Proof. exact ref_is_iff_declared. Qed.
 Print Assumptions C02_resolver_sound_and_complete.
 
+(* `valid` without the resolver: valid bd = true exactly when the bundle is structurally well
+   formed (valid_struct: J5sValid's checks with every reference check taken out - identifiers,
+   sibling names, containers, oneof members, required / optional, path parameters, topic message
+   names, distinct exported names, no duplicate generated symbol, reserved sub-package names,
+   distinct file paths; a boolean function of the source) and every reference written anywhere in
+   it (krefs_file: with the kind its place wants) is declared in the sense of
+   J5sRefSpec.ref_declared.  So the hypothesis of C02_full / C13_full can be read without any
+   function of the compiler model. *)
+Theorem C02_valid_declarative : forall bd,
+  valid bd = true <-> valid_decl to_snake to_camel to_screaming_snake bd.
+Proof. exact (valid_iff_decl to_snake to_camel to_screaming_snake). Qed.
+Print Assumptions C02_valid_declarative.
+
 Example C02_reference_example :
   (* import foo.v1 ; import foo.v2 : the prefix "foo" means foo.v2 (the last line that claims it) *)
   let imports := [mkImport (b "foo.v1") []; mkImport (b "foo.v2") []] in
@@ -440,6 +453,30 @@ Proof.
 Qed.
 Print Assumptions C02_construct_imports.
 
+(* ... at package level, for whatever compiles: the infrastructure files a declaration needs
+   (needs_*: read off the source with the per-type lists tied to the Go tables above - the
+   scalar's always-ensured files, annotation / validation imports of references and inline
+   types, the `required` block, arrays, message options, google.api.http and HttpBody of
+   methods, messaging annotations and Empty of topics) are the generated file the declaration
+   goes to (main / .service / .topic) or among its dependencies, after the link step - the
+   counterpart of C02_references_reach_dependencies for infrastructure files *)
+Theorem C02_infrastructure_reaches_dependencies : forall snake camel screaming bd pkg D,
+  compile_package snake camel screaming bd pkg = Ok D ->
+  forall f, In (BJ f) bd -> j5s_pkg f = pkg -> file_needs_ok f D.
+Proof. exact compile_needs_imported. Qed.
+Print Assumptions C02_infrastructure_reaches_dependencies.
+
+(* C02_full with the declarative hypothesis *)
+Theorem C02_full_declarative :
+  forall bd pkg, valid_decl to_snake to_camel to_screaming_snake bd ->
+    plain_bundle to_camel to_screaming_snake bd = true ->
+    (exists f, In f bd /\ bfile_pkg f = pkg) ->
+    exists D, compile bd pkg = Ok D /\ package_contract_full to_snake to_camel to_screaming_snake false bd pkg D.
+Proof.
+  intros bd pkg Hv. apply C02_full. apply C02_valid_declarative. exact Hv.
+Qed.
+Print Assumptions C02_full_declarative.
+
 (* ---- entities.  sourcewalk/entity.go does not convert an entity itself: it builds ordinary
    objects, an enum, a oneof, a service and a topic and hands them to the same visitors.
    model/J5sEntity.v is that expansion, source to source (expand_jfile); every theorem above
@@ -497,6 +534,20 @@ Example C02_entity_example :
   valid (c02_bundle [b "foo"; b "v1"] c02_foo) = true /\
   exists D, compile (c02_bundle [b "foo"; b "v1"] c02_foo) (b "foo.v1") = Ok D /\ length D = 3%nat.
 Proof. exact readme_entity_valid. Qed.
+
+(* ---- descriptions: the source locations (descriptor path + leading comment) the compiler
+   writes into the main file, model/J5sComments.v (main_locs: from the source and a table of
+   descriptions keyed by declared name path; emission order of j5convert's commentSet: the
+   message, then per property the inline type it defines and the property itself, then the
+   nested schemas; enums and enum values only where described, value path by NUMBER; the
+   description of a property with an inline type stays on the property).  Tied on every run:
+   for every compiled case the list equals the real SourceCodeInfo of every main file of the
+   package (J5sCorr.locs_check).  Here: the declaration the real compiler was probed with.
+   Not in SourceCodeInfo at all (observed): service and method descriptions. *)
+Theorem C02_source_locations_probe :
+  locs_eqb (main_locs to_camel probe_table probe_file) probe_real = true.
+Proof. exact probe_locations. Qed.
+Print Assumptions C02_source_locations_probe.
 
 (* ---- C02 (structure) x C12 / C04 (validation rules, list rules, annotations): family scha's
    writer model (model/RulesWrite.v write_prop: buildField / buildProperty with every rule arm,
